@@ -811,6 +811,9 @@ def run_c15(ctx):
                       "DataLines;\n1\n;", "datalines", "datalines x;", "* c;", "*c;a=1;", "* 'c;' ;", "%lbl: a;", "%lbl : %let a=1;",
                       "%let a=1;", "%if 1 %then a;", "%* c;", "a*b;", "=*c;", "%m * c;", "%m(1) %lbl:", "'s' * c;", ";* c;",
                       "%put a; datalines;\n1\n;", "%end; * c;", "%macro m; * c; %mend;"]]
+    # continuations with unquoted payloads (the literal buffer is shared with the prefix)
+    sens += ["%let s = %str(%'s);", "%put %nrstr(%%a);", "x='it''s';", "t = \"a\"\"b\";", "%put %str(a%)b) 'c''d';", "y='41'x;",
+             "%let q=%str(%();", "%m('a''b', %str(%,))", "title \"&v it\"\"s\";", "%str(%'s)", "'a''b'"]
     per_a = 6 if q else 30
     maxpairs = 10000 if q else 150000
     tuples = []
